@@ -834,8 +834,18 @@ def run_totality(facts, run, prop):
                 bulk_sites.setdefault((fid, key), []).append(s)
     # module-level totals: moving code between functions of one module must not alarm
     def modkey(key):
+        # the module = leading lower-case path segments (types start with an upper-case letter); for a free function
+        # the last segment is the function itself
         fnname, kind = key.split("|")
-        return "::".join(fnname.split("::")[:2]) + "|" + kind
+        segs = fnname.split("::")
+        mod = []
+        for sg in segs:
+            if sg[:1].isupper() or sg.startswith("<"):
+                break
+            mod.append(sg)
+        if len(mod) == len(segs):
+            mod = mod[:-1]
+        return "::".join(mod) + "|" + kind
     mod_allowed = {}
     for k_, v_ in inv.items():
         mod_allowed[modkey(k_)] = mod_allowed.get(modkey(k_), 0) + v_
